@@ -207,6 +207,9 @@ class _Serving(_local):
     """
 
     def load(self, request, response):
+        # What a released request left behind for the ExceptionTrapper
+        # (see Application.release_serving) is of no concern to the next one.
+        self.__dict__.pop('released_show_tracebacks', None)
         self.request = request
         self.response = response
 
